@@ -10,7 +10,8 @@
      message Sub { optional int32 x; optional string y; repeated int32 rx; }
      message Opt { optional <t> f_<t> for the 15 scalar types; optional E f_enum; optional Sub sub;
                    repeated int32 ri; repeated string rs; repeated Sub rm; map<string,int32> mp;
-                   optional group Grp { optional int32 g; } (field name grp); extensions; }
+                   optional group Grp { optional int32 g; } (field name grp);
+                   optional google.protobuf.Any any; extensions; }
      extend Opt { optional int32 oext; optional Sub osub; }
      extend google.protobuf.<Kind>Options { optional <t> x_<t>; optional E x_enum; optional Opt m;
                    repeated int32 r; repeated Sub rm; }
@@ -24,6 +25,7 @@
      k = int (s decimal magnitude) | flt | id | str | msg (fs = <<[nm, v, colon]>>) | lst
    Canonical values (what the options message holds):    CV  = [k, neg, s, fs]
      k = int | flt | bool | str | bytes | enum (s = value NAME) | msg (fs = <<[n, v]>>) | lst | map
+         | packed (a bytes field holding the encoding of the message fs of type p.<s>)
 
    Result of interpreting:  [ok, unc, pre, rule, v]
      unc   the case touches a rule that is not certain without protoc -> never exported
@@ -47,6 +49,10 @@
      * repeated field: values append in statement order; a list literal is legal only inside a
        message literal and only for a repeated field; two entries of a map with the same key: uncertain
      * inside a message literal a singular field may appear once (ml-duplicate); a scalar needs ':'
+     * a field of type google.protobuf.Any may be written  { [type.googleapis.com/p.Sub] { ... } }  (also
+       type.googleprod.com): type_url is that text, value the encoding of the literal read as a p.Sub; any
+       other host, an unknown message type, a type reference in a message that is not Any, or an invalid
+       inner literal reject; a type reference mixed with other fields: uncertain
      * a field declared with targets may only be used on elements of those kinds, wherever it
        occurs: option name component or message literal field (target)                         *)
 EXTENDS Naturals, Sequences, FiniteSets, TLC
@@ -131,6 +137,7 @@ ValT(t) == IF t = "enum" THEN "E" ELSE ""          \* enum type of the custom en
 SubFields == { F("x", "int32", "", "one", FALSE, "Sub.x"), F("y", "string", "", "one", FALSE, "Sub.y"),
                F("rx", "int32", "", "rep", FALSE, "Sub.rx") }
 GrpFields == { F("g", "int32", "", "one", FALSE, "Grp.g") }
+AnyFields == { F("type_url", "string", "", "one", FALSE, "Any.type_url"), F("value", "bytes", "", "one", FALSE, "Any.value") }
 MapFields == { F("key", "string", "", "one", FALSE, "Mp.key"), F("value", "int32", "", "one", FALSE, "Mp.value") }
 OptFields == { F("f_" \o t, t, ValT(t), "one", FALSE, "Opt.f_" \o t) : t \in ValueTypes } \cup
              { F("sub", "msg", "Sub", "one", FALSE, "Opt.sub"),
@@ -139,6 +146,7 @@ OptFields == { F("f_" \o t, t, ValT(t), "one", FALSE, "Opt.f_" \o t) : t \in Val
                F("rm", "msg", "Sub", "rep", FALSE, "Opt.rm"),
                F("mp", "msg", "Mp", "map", FALSE, "Opt.mp"),
                F("grp", "grp", "Grp", "one", FALSE, "Opt.grp"),
+               F("any", "msg", "Any", "one", FALSE, "Opt.any"),
                F("oext", "int32", "", "one", TRUE, "oext"),
                F("osub", "msg", "Sub", "one", TRUE, "osub") }
 CustomTop == { F("x_" \o t, t, ValT(t), "one", TRUE, "x_" \o t) : t \in ValueTypes } \cup
@@ -170,6 +178,7 @@ Fields(mt, kind) ==
     [] mt = "Sub" -> SubFields
     [] mt = "Grp" -> GrpFields
     [] mt = "Mp"  -> MapFields
+    [] mt = "Any" -> AnyFields
 
 (* an option-name component names a field by its name; extensions by (p.name) *)
 Find(mt, kind, np) == { f \in Fields(mt, kind) : f.n = np.n /\ f.ext = np.ext }
@@ -177,6 +186,11 @@ Find(mt, kind, np) == { f \in Fields(mt, kind) : f.n = np.n /\ f.ext = np.ext }
 FindML(mt, kind, np) == { f \in Fields(mt, kind) :
                             \/ (f.t # "grp" /\ f.n = np.n /\ f.ext = np.ext)
                             \/ (f.t = "grp" /\ ~np.ext /\ f.mt = np.n) }
+
+(* type references  [host/p.Type]  of the expanded Any syntax (written as extension-like name components) *)
+AnyRefs == {"type.googleapis.com/p.Sub", "type.googleprod.com/p.Sub", "example.com/p.Sub", "type.googleapis.com/p.Nope"}
+AnyHostOk(n) == n \in {"type.googleapis.com/p.Sub", "type.googleprod.com/p.Sub", "type.googleapis.com/p.Nope"}
+AnyType(n) == IF n \in {"type.googleapis.com/p.Sub", "type.googleprod.com/p.Sub", "example.com/p.Sub"} THEN "Sub" ELSE ""
 
 RetIds == {"x_int32", "m", "Opt.f_int32", "Opt.sub", "Opt.rm", "Sub.x", "Sub.y"}
 NoSch == [tf |-> "none", tk |-> {}, ret |-> [i \in RetIds |-> "unset"]]
@@ -262,7 +276,18 @@ MLFold(mt, fs, i, es, kind, sch) ==     \* fields fs[i..] of a message literal o
   IF i > Len(fs) THEN Ok(CMsg(es))
   ELSE LET e == fs[i]
            cand == FindML(mt, kind, e.nm)
-       IN IF cand = {} THEN Rej(IF e.nm.ext THEN "ml-unknown-extension" ELSE "ml-unknown-field")
+       IN IF e.nm.ext /\ e.nm.n \in AnyRefs THEN
+            IF mt # "Any" THEN Rej("any-ref-outside-any")
+            ELSE IF Len(fs) # 1 THEN Unc("unc:any-ref-mixed")
+            ELSE IF ~AnyHostOk(e.nm.n) THEN Rej("any-host")
+            ELSE IF AnyType(e.nm.n) = "" THEN Rej("any-unknown-type")
+            ELSE IF e.v.k # "msg" THEN Rej("any-value-not-message")
+            ELSE IF sch.tf # "none" THEN Unc("unc:targets-inside-any")
+            ELSE LET inner == MLFold(AnyType(e.nm.n), e.v.fs, 1, <<>>, kind, sch) IN
+                 IF ~inner.ok THEN inner
+                 ELSE Ok(CMsg(<< E("type_url", CVal("str", FALSE, e.nm.n)),
+                                 E("value", V("packed", FALSE, AnyType(e.nm.n), inner.v.fs)) >>))
+          ELSE IF cand = {} THEN Rej(IF e.nm.ext THEN "ml-unknown-extension" ELSE "ml-unknown-field")
           ELSE LET f == CHOOSE c \in cand : TRUE IN
                IF ~Allowed(f, kind, sch) THEN Rej("target")
                ELSE IF ~e.colon /\ f.t \notin {"msg", "grp"} THEN RejPre("syntax:ml-missing-colon")
